@@ -342,6 +342,20 @@ func cmpMutants(in *instance, t *tree, wrap func([]byte) []byte) []mutant {
 			{Path: f, Op: "prime-short", Rule: "paillier prime of wrong size", make: func() []byte { return t.set(f, bigBytes(new(big.Int).Rsh(cur, 8), 127)) }},
 			{Path: f, Op: "prime-long", Rule: "paillier prime of wrong size", make: func() []byte { return t.set(f, append([]byte{1}, bigBytes(cur, 128)...)) }},
 			{Path: f, Op: "prime-plus4", Rule: "paillier prime factor is composite", make: func() []byte { return t.set(f, bigBytes(new(big.Int).Add(cur, big.NewInt(4)), 128)) }},
+			// p' = 2r+1 with r prime (so "(p-1)/2 is prime" holds) but p' itself composite, 1024 bits, 3 mod 4
+			{Path: f, Op: "prime-composite-with-prime-half", Rule: "paillier prime factor is composite", make: func() []byte {
+				r := new(big.Int).Rsh(cur, 1)
+				for {
+					r.Add(r, big.NewInt(2))
+					if !r.ProbablyPrime(4) {
+						continue
+					}
+					c := new(big.Int).Add(new(big.Int).Lsh(r, 1), one)
+					if !c.ProbablyPrime(4) && c.BitLen() == 1024 {
+						return t.set(f, bigBytes(c, 128))
+					}
+				}
+			}},
 			{Path: f, Op: "prime-one", Rule: "paillier prime of wrong size", make: func() []byte { return t.set(f, []byte{1}) }},
 			{Path: f, Op: "prime-zero", Rule: "paillier prime of wrong size", make: func() []byte { return t.set(f, []byte{}) }},
 		})
